@@ -13,6 +13,7 @@ From Coq Require Import List NArith ZArith.
 From NV Require Import CramIdx.Crai CramIdx.CraiProofs CramIdx.Multi CramIdx.MultiProofs CramIdx.Transport CramIdx.TransportProofs CramIdx.Bytes CramIdx.BytesProofs.
 From NV Require Import Io.Source Io.ReadExact Io.ReadExactProofs Async.ReadExact CramIdx.AsyncQuery CramIdx.AsyncQueryProofs.
 From NV Require Import CramIdx.ContainerLink CramIdx.BytesQueryProofs CramIdx.BufViewProofs CramIdx.SpanProofs.
+From NV Require Import CramIdx.ZeroSpan CramIdx.ZeroSpanProofs.
 From NV Require Bgzf.Frame Bgzf.Inflate.
 From NV Require Import CramIdx.Gz CramIdx.GzProofs.
 From NV Require Import Trunc.Stream Trunc.Cram Bgzf.Crc32.
@@ -613,7 +614,7 @@ Print Assumptions c19_placed_unmapped_hit_at_pos.
    start position for the writer ([wrec]; io/writer/record.rs after b02b368), which builds the
    slice header context from it; the record scan of fs/index.rs takes the end as is
    ([irec false]) until the repair /tmp/C19/fixes/04 makes it take max(end, start) ([irec true]).
-   [index_span_repaired] (NV.CramIdx.Multi, now false) says which one the compared model follows.
+   [index_span_repaired] (NV.CramIdx.Multi, true since the repair 405565a is in /repo) says which one the compared model follows.
    THE AGREEMENT of the two paths of index(), through the switch: the entry the slice-header path
    gives a single-reference / unmapped slice is the entry list the record scan would give -- for
    ALL placed records once the switch is true, for records with start <= end as the code is. *)
@@ -656,6 +657,61 @@ Theorem c19_index_repaired_lists_every_slice :
     index_x true pos (xfile f) = Ok (flat_map mspec_entries (map wcont_of (xfile f))).
 Proof. exact index_repaired_lists_every_slice. Qed.
 Print Assumptions c19_index_repaired_lists_every_slice.
+
+(* ---- placed records that cover NO reference base, in a region query (NV.CramIdx.ZeroSpan) ----- *)
+
+(* A mapped read whose CIGAR consumes no reference base (`5S`, `2S3I`: CRAM end = start - 1) and
+   a placed read without bases are converted to a RecordBuf whose alignment_end is its start
+   (record_buf.rs: reference span 0 -> no span -> end = start), so the query's `intersects` tests
+   [start, start] for them.  [as_bufz] = as_buf after the floor max(end, start); on records with
+   start <= end it IS as_buf, so every earlier query theorem is about the same function there. *)
+Theorem c19_zero_span_view_extends_converted_view :
+  forall nrefs es f r lo hi,
+    recs_ok f -> query_region_bufz nrefs es f r lo hi = query_region_buf nrefs es f r lo hi.
+Proof. exact query_region_bufz_id. Qed.
+Print Assumptions c19_zero_span_view_extends_converted_view.
+
+(* such a record -- flagged unmapped or not -- is kept exactly when it is on the named reference
+   and its POS lies in the region; the earlier view as_buf lost the mapped ones (witness) *)
+Theorem c19_zero_span_record_hit_at_pos :
+  (forall x r lo hi q,
+     rid x = Some q -> re x < rs x ->
+     selected r lo hi (as_bufz x) = ((q =? r) && (lo <=? rs x) && (rs x <=? hi))%bool) /\
+  selected 0 5 5 (as_buf (mkrec 0 (Some 0) 5 4 false)) = false /\
+  selected 0 5 5 (as_bufz (mkrec 0 (Some 0) 5 4 false)) = true.
+Proof. split; [exact selected_zero_span|exact as_buf_misses_zero_span]. Qed.
+Print Assumptions c19_zero_span_record_hit_at_pos.
+
+(* Reader::query with the index the (repaired) record scan builds equals the scan of the converted
+   records, for files whose placed records may cover no reference base: only the floored records
+   (wcont_of: end := max(end, start)) have to be well-formed *)
+Theorem c19_query_equals_scan_with_zero_span_records :
+  forall pos f es r lo hi,
+    mfile_ok pos (map wcont_of f) -> index_x true pos f = Ok es ->
+    query_m selected es (bufz_file f) r lo hi = Ok (scan_m (bufz_file f) r lo hi).
+Proof. exact query_bufz_equals_scan. Qed.
+Print Assumptions c19_query_equals_scan_with_zero_span_records.
+
+(* the whole chain cram::fs::index -> Reader::query on a written file (check kind `zq`), through
+   the switch: no panic, no error, the scan-kept records *)
+Theorem c19_index_then_query_is_scan :
+  forall pos nrefs f r lo hi,
+    index_span_repaired = true ->
+    mfile_ok pos (map wcont_of (xfile f)) -> r < nrefs ->
+    index_then_query pos nrefs f r lo hi
+    = Ok (scan_m (bufz_file f) r (fst (region_bounds lo hi)) (snd (region_bounds lo hi))).
+Proof. exact index_then_query_is_scan. Qed.
+Print Assumptions c19_index_then_query_is_scan.
+
+Theorem c19_index_then_query_returns_zero_span_record_at_pos :
+  forall pos nrefs f r lo hi x q,
+    index_span_repaired = true ->
+    mfile_ok pos (map wcont_of (xfile f)) -> r < nrefs ->
+    In x (flat_map m_recs f) -> rid x = Some q -> re x < rs x ->
+    ((q =? r) && (fst (region_bounds lo hi) <=? rs x) && (rs x <=? snd (region_bounds lo hi)))%bool = true ->
+    exists l, index_then_query pos nrefs f r lo hi = Ok l /\ In (as_bufz x) l.
+Proof. exact index_then_query_returns_zero_span_at_pos. Qed.
+Print Assumptions c19_index_then_query_returns_zero_span_record_at_pos.
 
 (* ---- the gzip layer of the .crai file (NV.CramIdx.Gz over C01's inflater and CRC-32) --------- *)
 
